@@ -101,3 +101,21 @@ prop("C06", shards=16,
      level_note="Trusted: harness/ref/wire + ref/leb + ref/nbt. NBT fields written from a Go map keep compounds to one key and avoid "
                 "[]any of int8/int32/int64 (key order unspecified / typed-array rule) so that the byte comparison is meaningful; "
                 "RawMessage-backed NBT fields carry arbitrary trees.")
+
+prop("C07", shards=16,
+     technique="rapid property-based testing: pack/unpack identity over frame streams with a reused receiver, conformance of emitted frames judged by an independent frame reader (compress/zlib only), crafted malformed headers",
+     rule="Streams of 1..6 (thorough: 1..50) frames: ids over the int32 range biased to VarInt boundaries and negatives; payload "
+          "lengths from {0,1,2}, threshold+-2, (VarInt boundary 127/128/16383/16384 - idLen)+-2, log-uniform, rarely 1 MiB..2 MiB-idLen; "
+          "payload pseudo-random / constant / text; threshold from {-1, 0, 1, 2, 64, 256, 2^21, random <= 20000, first payload's length "
+          "+-1}; one reused receiving Packet; 1 in 4 cases through two net.Conn over an in-memory duplex with fragmented reads. "
+          "Oracle: (1) UnPack(Pack(p)) == p per frame in order, exactly one frame consumed each time, sentinel left; (2) the reference "
+          "reader parses each emitted frame: minimal VarInt total length == frame size; compression mode: data length 0 + plain "
+          "packet, or == inflated size, >= threshold, <= 2 MiB, one zlib stream ending at the frame end, inflating to id+payload; "
+          "(3) C07Reject: reference-built frames with declared size negative / > 2 MiB (uncompressed mode), data length negative / "
+          "> 2 MiB / 0 < dl < threshold / smaller than the id's encoding (compressed mode, valid zlib body) must yield an error. "
+          "Non-trivial: >= 2 frames, or a payload within +-2 of the threshold or +-3 of a VarInt boundary, or any rejection case. "
+          "Distinct: hash of the JSON case.",
+     level_text="Sampled streams with boundary-biased sizes and thresholds; rejection classes sampled.",
+     level_note="Trusted: harness/ref/frame (+ref/leb, compress/zlib). Not asserted: rejection of a data-length-0 packet larger than "
+                "2 MiB inside compression mode, nor of a data length that disagrees with the inflated size (the statement lists "
+                "negative, above maximum, and non-zero below threshold).")
